@@ -32,8 +32,8 @@ ASSUMPTIONS = [
     '(`%s` glued to a following word, a non-ASCII digit, ...) are outside the printer image and measured on the mutation stream',
     'a date-shaped literal that is not a calendar date fails the date rule (FailedSemantics); the text is then read by the '
     'following alternatives (2020-13-45 is 2020 - 13 - 45); modelled in the lexer',
-    'character level is proved (C06_lex_roundtrip / C06_text_roundtrip) for the spelling relation of Model/Spelling.v; the renderer '
-    'additionally flips string quotes and drops a zero integer part of decimals (tested only)',
+    'character level is proved (C06_lex_roundtrip / C06_text_roundtrip) for the spelling relation of Model/Spelling.v (incl. either '
+    'quote character for strings); the renderer additionally drops a zero integer part of decimals (.5 for 0.5: tested only)',
     'alphabet: code points of the BMP; Unicode decimal digits other than 0-9 (accepted by \\d) are not generated',
     'the in-process parser is tatsu.compile(bql.ebnf) run with BQLSemantics; TatSu passes rule parameters of an interpreted '
     'grammar as one string "Neg::UnaryOp", the harness adapter keeps the first component (as the generated code does)',
@@ -653,10 +653,10 @@ def tok_text(t, rng, canonical=False):
     if tag == 4:
         return '%04d-%02d-%02d' % (t[1], t[2], t[3])
     if tag == 5:
-        s = ''.join(map(chr, t[2]))
-        q = '"' if t[1] else "'"
+        s = ''.join(map(chr, t[1]))
+        q = '"' if "'" in s else "'"
         if not canonical and '"' not in s and "'" not in s and rng.random() < 0.5:
-            q = '"' if q == "'" else "'"
+            q = '"'
         return q + s + q
     if tag == 6:
         return '#' + ''.join(map(chr, t[1]))
